@@ -411,6 +411,25 @@ def stmt_cases(tier, rng):
         acc_add(as_text(ident("z"))), {"k": "expr", "e": call("setze_erstes", [("l", lvid("src")), ("v", zl(9))])}, setv(idx_lv(lvid("src"), zl(3)), zl(0))]}, acc_add(as_text(bin_("idx", ident("src"), zl(1))))], ident("acc"), TT)
     add("each:element-is-copy", acc_init() + [var("src", TL(TT), lit(L(TT, [T("ab"), T("cd")])), False), {"k": "foreach", "v": "e", "t": TT, "idx": "", "in": ident("src"), "body": [
         setv(idx_lv(lvid("e"), zl(1)), lit(C("X"))), acc_add(ident("e"))]}, acc_add(bin_("idx", ident("src"), zl(1)))], ident("acc"), TT)
+    # compound assignments (defined by their expansion): every operator on Zahl / Kommazahl / Byte variables, list elements and fields
+    def cset(op, lv, e=None):
+        return {"k": "cset", "op": op, "lv": lv, "e": e if e is not None else NONE}
+    for op in ("plus", "minus", "mal", "durch", "shl", "shr", "neg"):
+        for tn, t, v0, opnds in (("Z", TZ, zl(7), [zl(2), zl(-3), lit(B(2)), lit(K(1, 1))]), ("Zmax", TZ, zl(MAXI), [zl(1), zl(2)]), ("K", TK, lit(K(5, 1)), [zl(2), lit(K(1, 2))]),
+                                 ("B", TBY, lit(B(200)), [lit(B(100)), zl(3)]), ("W", TW, lit(W(True)), [])):
+            if op == "neg":
+                add("cset:neg:%s" % tn, [var("cv", t, v0, False), cset("neg", lvid("cv"))], ident("cv"), t)
+                continue
+            if tn == "W" or (op in ("shl", "shr") and tn == "K"):
+                continue
+            for j, o in enumerate(opnds):
+                if op in ("shl", "shr") and o["v"]["k"] == "K":
+                    continue
+                add("cset:%s:%s:%d" % (op, tn, j), [var("cv", t, v0, False), cset(op, lvid("cv"), o)], ident("cv"), t)
+    add("cset:element", [var("cl", TL(TZ), lit(L(TZ, [Z(1), Z(2), Z(3)])), False), cset("plus", idx_lv(lvid("cl"), zl(2)), zl(40)), cset("mal", idx_lv(lvid("cl"), zl(3)), zl(2)), cset("neg", idx_lv(lvid("cl"), zl(1)))], ident("cl"), TL(TZ))
+    add("cset:element-out-of-range", [var("cl", TL(TZ), lit(L(TZ, [Z(1)])), False), cset("plus", idx_lv(lvid("cl"), zl(2)), zl(1))], ident("cl"), TL(TZ))
+    add("cset:field", [var("cp", TS("Paar"), new("Paar", zahl=zl(5), wort=lit(T("w"))), False), cset("minus", fld_lv("zahl", lvid("cp")), zl(6)), cset("durch", fld_lv("zahl", lvid("cp")), zl(2))], {"k": "fld", "f": "zahl", "e": ident("cp")}, TZ)
+    add("cset:in-loop", [var("cv", TZ, zl(1), False), {"k": "repeat", "n": zl(5), "body": [cset("mal", lvid("cv"), zl(3)), cset("minus", lvid("cv"), zl(1))]}], ident("cv"), TZ)
     # functions: recursion, early return from nested constructs, value and Referenz parameters, globals
     for n in (0, 1, 2, 7, 10):
         add("call:fib:%d" % n, [], call("fib", [("n", zl(n))]), TZ)
